@@ -230,6 +230,9 @@ def run_check(prop_id, tier, harnesses, level_explanation, trusted_base=(), extr
         'assumptions': sorted({a for h in harnesses for a in h.assumptions}),
     }
     json.dump(ev, open(os.path.join(VERIF, 'evidence', f'{prop_id}.json'), 'w'), indent=1, default=str)
+    if tier == 'thorough':        # keep a copy: evidence/<id>.json is later rewritten by the quick run that is registered first in MANIFEST.json
+        os.makedirs(os.path.join(VERIF, 'evidence', 'thorough'), exist_ok=True)
+        json.dump(ev, open(os.path.join(VERIF, 'evidence', 'thorough', f'{prop_id}.json'), 'w'), indent=1, default=str)
     if violations:
         return EXIT_VIOLATION
     if problems:
